@@ -143,7 +143,7 @@ func c16Gen(seed int64, idx int) c16Pkg {
 		body.WriteString("\treturn x\n}\n")
 		p.Hoist = append(p.Hoist, body.String())
 	}
-	p.Hoist = append(p.Hoist, fmt.Sprintf("func main() {\n\tfmt.Println(\"main\", g0, g1, g2, g3, f%d(g1), mk(k2).B.Name())\n\tfmt.Println(odd(k2), even(k1), gs, Tag(mk(k1)), Name(mk(k2).B), S)\n\tsz := &Size{W: k1, H: 2}\n\tbx := &Box{Tag: \"b\"}\n\tp := pair(k2)\n\tw := wide(k1)\n\tfmt.Println(area(sz, bx), sz.W, sz.H, bx.H, bx.W, p.F00, p.F16, p.F08, w.F00, w.F03, w.F16, w.F19)\n\tfmt.Println(\"S: \", sz, bx, p, litA(), litB(), localT(4), bl)\n\tfmt.Println(usesBuiltinNames(k1), usesBuiltinNames(k2))\n\tfmt.Println(\"S: \", showdm())\n\tfmt.Println(sounds(), len(doc), doc[:5])\n}\n", nf-1))
+	p.Hoist = append(p.Hoist, fmt.Sprintf("func main() {\n\tfmt.Println(\"main\", g0, g1, g2, g3, f%d(g1), mk(k2).B.Name())\n\tfmt.Println(odd(k2), even(k1), gs, Tag(mk(k1)), Name(mk(k2).B), S)\n\tsz := &Size{W: k1, H: 2}\n\tbx := &Box{Tag: \"b\"}\n\tp := pair(k2)\n\tw := wide(k1)\n\tfmt.Println(area(sz, bx), sz.W, sz.H, bx.H, bx.W, p.F00, p.F16, p.F08, w.F00, w.F03, w.F16, w.F19)\n\tfmt.Println(\"S: \", sz, bx, p, litA(), litB(), localT(4), bl)\n\tfmt.Println(usesBuiltinNames(k1), usesBuiltinNames(k2))\n\tfmt.Println(\"S: \", showdm())\n\tfmt.Println(sounds(), len(doc), doc[:5])\n\tif note == nil && pick == nil {\n\t\tpick = max\n\t\tfmt.Println(\"pick\", pick(1, 2))\n\t}\n}\n", nf-1))
 	// the spine keeps its order: later initialisers depend on earlier ones
 	p.Spine = []string{
 		fmt.Sprintf("const k1 = %d\n", rng.Range(1, 9)),
@@ -154,6 +154,9 @@ func c16Gen(seed int64, idx int) c16Pkg {
 		fmt.Sprintf("var g3 = fmt.Sprint(even(g2&7), f%d(g2))\n", rng.Intn(nf)),
 		"var gs []string\n",
 		"var bl []string\n",
+		// variables of function type without an initialiser (one of them without results): wherever they end up in a file
+		"var note func(int)\n",
+		"var pick func(int, int) int\n",
 		// text that looks like a build constraint inside a string: it is text
 		"var doc = `usage:\n//go:build ignore\n// +build ignore\n//go:build !goat\nend`\n",
 		// package-level statements (goatlang runs them in place; for the Go reference each is wrapped into an init function)
@@ -234,7 +237,7 @@ func c16Layout(p c16Pkg, rng *core.Rng, dir string) c16Variant {
 		}
 		return v
 	}
-	names := []string{"a.go", "b.go", "c.go", "m.go", "z.go", "A.go", "main.go", "0.go", "_u.go", "zz_last.go", "a1.go", "a10.go", "a2.go"}
+	names := []string{"a.go", "b.go", "c.go", "m.go", "z.go", "A.go", "main.go", "0.go", "_u.go", "zz_last.go", "a1.go", "a10.go", "a2.go", "ab_testing.go", "load_tester.go", "x_testdata.go", "test.go", "b_test_util.go"}
 	core.Shuffle(rng, names)
 	chosen := append([]string{}, names[:nfiles]...)
 	sort.Strings(chosen)
